@@ -7,12 +7,13 @@
 //
 //	c01dump -modes N,L,ND,LD a.go b.go ...
 //
-// modes: N = ir.NaiveForm, L = default (lifted), D suffix = | ir.GlobalDebug.
+// modes: N = ir.NaiveForm, L = default (lifted), suffix D = | ir.GlobalDebug, suffix I = | ir.InstantiateGenerics.
 //
 // Record format (one record per line, space separated, strings hex encoded, "-" = empty /
 // absent):
 //
 //	prog <mode>
+//	tkey <tid> <hexkey>          canonical key of the type (equal keys <=> types.Identical), follows its type record
 //	type <tid> <kind> ...        basic <name> | named <hexname> <under> | ptr <elem> | slice <elem>
 //	                             | array <len> <elem> | struct <n> <ftid>... | tuple <n> <tid>...
 //	                             | sig | iface <n> <hexmethod>... | other <hexstring>
@@ -101,7 +102,8 @@ func (d *dumper) tid(t types.Type) int {
 		u := d.tidUnalias(types.Unalias(t))
 		line = u
 	case *types.Named:
-		if t.TypeArgs().Len() > 0 || t.TypeParams().Len() > 0 {
+		if t.TypeArgs().Len() == 0 && t.TypeParams().Len() > 0 {
+			// an uninstantiated generic type
 			line = "other " + hx(t.String())
 		} else {
 			line = fmt.Sprintf("named %s %d", hx(t.String()), d.tid(t.Underlying()))
@@ -142,7 +144,7 @@ func (d *dumper) tid(t types.Type) int {
 	default:
 		line = "other " + hx(t.String())
 	}
-	d.tq[idx] = fmt.Sprintf("type %d %s", id, line)
+	d.tq[idx] = fmt.Sprintf("type %d %s\ntkey %d %s", id, line, id, hx(key))
 	return id
 }
 
@@ -793,18 +795,19 @@ func main() {
 	defer w.Flush()
 	for _, m := range strings.Split(*modes, ",") {
 		var mode ir.BuilderMode
-		switch m {
-		case "N":
-			mode = ir.NaiveForm
-		case "L":
-			mode = 0
-		case "ND":
-			mode = ir.NaiveForm | ir.GlobalDebug
-		case "LD":
-			mode = ir.GlobalDebug
-		default:
-			fmt.Fprintln(os.Stderr, "unknown mode", m)
-			os.Exit(2)
+		for _, c := range m {
+			switch c {
+			case 'N':
+				mode |= ir.NaiveForm
+			case 'L':
+			case 'D':
+				mode |= ir.GlobalDebug
+			case 'I':
+				mode |= ir.InstantiateGenerics
+			default:
+				fmt.Fprintln(os.Stderr, "unknown mode", m)
+				os.Exit(2)
+			}
 		}
 		pkg := types.NewPackage(files[0].Name.Name, files[0].Name.Name)
 		tc := &types.Config{Importer: importer.ForCompiler(fset, "source", nil)}
